@@ -8,20 +8,20 @@ EXTRA = {
  "C05": " BlackJAXSMC (its own copy of the target, evaluated under vmap/scan) runs through a jax-written random-walk stand-in for the absent blackjax with a jax-traceable twin of the model and proposal: every start position and every (z, value) the kernel evaluates is exported through jax.debug.callback, the finished kernel's function is probed eagerly before the next refit, and all points are judged by the same closed-form oracle.",
  "C08": " The returned evidence is also recomputed by definition from the stored populations and their own temperatures (independent of the recorded series), on reference and resumed runs incl. the live-dictionary route; a few BlackJAXSMC runs (stand-in blackjax) get the same oracles. A fifth of the scenarios carry a large common log-likelihood constant (-2800 ... +4000): nothing but the evidence itself may depend on it. One sampler object / one Aspire instance serving two fresh runs; evidence by definition summed from the LAST stored population at temperature 0.",
  "C09": " The generator seam also records how each draw was requested: draws must be with replacement, in every run and in the adversarial resamples (incl. fewer draws than particles). Some scenarios carry a large common log-likelihood constant (the probability vector must not change).",
- "C10": " A few BlackJAXSMC runs (stand-in blackjax) are recomputed the same way. The set handed back by Samples.rejection_sample after importance runs is recomputed too. Integer-literal bounds, flow preconditioning (stub back-end) and float32 runs whose prior returns float64 values with a finite sentinel outside the support are part of the swarm. A fifth of the cases sample inside enable_pool (likelihood only, or the prior too).",
+ "C10": " A few BlackJAXSMC runs (stand-in blackjax) are recomputed the same way. The set handed back by Samples.rejection_sample after importance runs is recomputed too. Integer-literal bounds, flow preconditioning (stub back-end) and float32 runs whose prior returns float64 values with a finite sentinel outside the support are part of the swarm. A fifth of the cases sample inside enable_pool (likelihood only, or the prior too). After every run the set Aspire.convert_to_samples builds from bare coordinates is judged as well (it raises on the unchanged tree: counted, DESIGN 7.3).",
  "C13": " A third of the saved histories hold 10-14 populations (ordering of numbered groups). Real-flow round trips in 1-5 dimensions.",
- "C14": " Sampling and resume-from-file-then-sample also use the OTHER SMC sampler (emcee SMC), named at resume_from_file or at sample_posterior; the verdict carries the history (crashed? on a resumed instance?) so that the one known finding is matched narrowly. Besides the seeded search every two-run history over a small alphabet is enumerated (288 directed sequences: context or explicit path x either SMC sampler x refit none / plain / overwrite-with-path x rebuilt by resume_from_file or not x second run smc / emcee_smc / importance x fresh or spelt resume_from=None x completed or interrupted at likelihood call 0 / 2 / 4).",
+ "C14": " Sampling and resume-from-file-then-sample also use the OTHER SMC sampler (emcee SMC), named at resume_from_file or at sample_posterior; the verdict carries the history (crashed? on a resumed instance?) so that the one known finding is matched narrowly. Besides the seeded search every two-run history over a small alphabet is enumerated (288 directed sequences: context or explicit path x either SMC sampler x refit none / plain / overwrite-with-path x rebuilt by resume_from_file or not x second run smc / emcee_smc / importance x fresh or spelt resume_from=None x completed or interrupted at likelihood call 0 / 2 / 4). 84 further directed sequences refit ON the instance resume_from_file built before its next run.",
  "C16": " Selectors include negative-step slices with and without bounds (numpy, jax). Selections that keep no row (empty slice, all-false mask, empty index array) are judged too (found and led to the repair of a genuine defect).",
  "C18": " A few BlackJAXSMC runs (stand-in blackjax) get the same history oracle. Some scenarios carry a large common log-likelihood constant. Every stored population must have the loop's particle number; a resumed record must still hold, unchanged, every population the checkpoint already held; the final forced checkpoint is one of the states resumed from.",
  "C19": " Context managers are also built first and entered later (two handlers made up front, then nested) and a close_pool=False handler is entered a second time: 'on entry' is the with-statement, not the constructor. A pool whose own close() or join() raises is one more exit path: restoration is still demanded and the enclosing contexts unwind with the new exception.",
  "C20": " BlackJAXSMC (stand-in blackjax) is run twice with the same jax key and generator seed (bit-identical) and once with another key (must differ). Real flows also in 3 dimensions; a supplied generator-like object that is not a numpy Generator must be used as well. Samples.rejection_sample(rng=...) after an importance run: the supplied generator (numpy Generator or a generator-like object) must be the one drawn from, no unseeded generator may be created, same seed -> same rows, other seeds -> other rows when the weights leave room.",
- "C03": " Flows are built in 1-4 dimensions (above 2 flowjax carries key-dependent permutation layers that a save/load cycle must keep). The flow is also built by Aspire itself (init_flow) for a problem with a periodic parameter whose data sit on the wrap point.",
+ "C03": " Flows are built in 1-4 dimensions (above 2 flowjax carries key-dependent permutation layers that a save/load cycle must keep). The flow is also built by Aspire itself (init_flow) for a problem with a periodic parameter whose data sit on the wrap point. Aspire-built flows are also drawn from through Aspire.sample_flow (eighth round; found and led to the repair of a genuine defect).",
  "C06": " A share of the swarm runs the emcee-driven SMC variant and a few cases BlackJAXSMC (stand-in blackjax): both forward the schedule options to the shared loop themselves; one sampler object also serves two sample() calls with different options.",
  "C07": " The emcee-driven variant (much of it with a non-linear ramp) and BlackJAXSMC (stand-in blackjax) are judged by the same bisection oracle.",
  "C11": " For every other durable state the live-dictionary route first runs a continuation that is interrupted before its next checkpoint and then resumes AGAIN from the dictionary the caller still holds (found and led to the repair of a genuine defect). Real-flow scenarios in 2 and 3 dimensions. preconditioning='flow' in the crash loop: with the real zuko back-end (one case quick, six thorough) and with the stub back-end in the generic swarm (the stub is trainable-like: a refit starts from its current state). 'The process dies after the final checkpoint was delivered' is one more durable state of every scenario; a sixth route hands the sampling arguments over through resume_from_file(resume_kwargs=...). BlackJAXSMC (stand-in random-walk blackjax) is in the crash loop since the eighth round: crashed at eager likelihood calls (one drawn call per case in quick, every call in thorough), resumed from the last payload the callback received with the same key and generator seed; its first run found that the jax key was not checkpointed (repaired).",
- "C12": " A quarter of the context scenarios do fit() inside the same auto_checkpoint context, another quarter make an earlier sampling call in it; 'loadable by the documented route' is executed for real (resume_from_file, then sample_posterior() with no arguments, on a scratch copy of the file) once per distinct durable state. Two sampler-level runs of one fixed schedule into one file with a cadence longer than the run (same pickled length, other content); the file is also compared with what the sampler acknowledged last, independently of the storage seam. The second-crash stage also continues through resume_from_file(resume_kwargs={... checkpoint_every ...}). An eighth of the crash-loop cases run the emcee-driven SMC variant.",
+ "C12": " A quarter of the context scenarios do fit() inside the same auto_checkpoint context, another quarter make an earlier sampling call in it; 'loadable by the documented route' is executed for real (resume_from_file, then sample_posterior() with no arguments, on a scratch copy of the file) once per distinct durable state. Two sampler-level runs of one fixed schedule into one file with a cadence longer than the run (same pickled length, other content); the file is also compared with what the sampler acknowledged last, independently of the storage seam. The second-crash stage also continues through resume_from_file(resume_kwargs={... checkpoint_every ...}). An eighth of the crash-loop cases run the emcee-driven SMC variant. The proposal in the file must reproduce the log_q of the stored checkpoint's particles (c12.stale_proposal); a share of the context scenarios refit between two calls in one context.",
  "C17": " BlackJAXSMC's own call sites run too (stand-in blackjax): the jax twin of the model checks that a log-prior is attached at trace time and, through jax.debug.callback, that it is the prior of exactly the points the compiled kernel evaluates. Pool cases pass parallelize_prior on.",
- "C15": " Direct conversions are explored too: a seeded stateful machine over a pool of sample sets (every class x namespace x width x optional-field subset), each shadowed by a plain-array model, in which to_namespace(T) for every ordered pair and to_numpy() compose with select / concatenate / pickle / dict round trips and with each other; every converted set must equal the model incl. class, temperature, attached evidence, target namespace and the same float width (found three genuine defects, repaired).",
+ "C15": " Direct conversions are explored too: a seeded stateful machine over a pool of sample sets (every class x namespace x width x optional-field subset), each shadowed by a plain-array model, in which to_namespace(T) for every ordered pair and to_numpy() compose with select / concatenate / pickle / dict round trips and with each other; every converted set must equal the model incl. class, temperature, attached evidence, target namespace and the same float width (found three genuine defects, repaired). The conversion operation also asks for a width in the call itself where the method offers the option (BaseSamples.to_namespace / to_numpy with dtype=).",
 }
 
 
@@ -100,7 +100,7 @@ CHECKS.update({
 CHECKS.update({
  "C14": dict(level="exploration", engine="operation-engine", ref="DESIGN.md section 4 C14", technique="deterministic simulation with fault injection, operation engine: seeded Hypothesis stateful machine over one checkpoint file and several Aspire processes (fit/refit, sample, nested auto_checkpoint, crash during sample, resume-from-file-then-sample); semantic oracle on the file after every operation",
    text="After every operation of every generated sequence (<= 8 ops, shrunk) the file is audited as it is: the proposal loaded from the file must reproduce the stored log_q of the checkpoint's particles, the stored configuration must name the sampler recorded inside the checkpoint, and at the end resume_from_file + sample_posterior() on a copy must run without mixing population and proposal. Proposals are stub flows fitted to visibly different data so 'which proposal' is unmistakable.",
-   note="Stub proposal/kernel/model; one file, two live instances, sequences up to 8 operations; a refit between resume_from_file and its first sample_posterior is not generated (caller mixing proposals in memory)."),
+   note="Stub proposal/kernel/model; one file, two live instances, sequences up to 8 operations; resume_from_file and its first sample_posterior form ONE operation (as in the property's own alphabet); a refit on the rebuilt instance before its next run is generated (directed sequences, eighth round)."),
 })
 
 
